@@ -450,9 +450,10 @@ impl<'c, 's> FnVisitor<'c, 's> {
         let (s, _) = br(sp);
         let start = s.max(attrs_end);
         let bo = br(body.brace_token.span.open()).0;
+        let bc = br(body.brace_token.span.close()).0;
         let header = norm(self.cx.text(start, bo));
         self.loops.push(json!({
-            "ord": self.loops.len(), "kind": kind, "start": start, "body_open": bo,
+            "ord": self.loops.len(), "kind": kind, "start": start, "body_open": bo, "body_close": bc,
             "header": header, "line": self.cx.line_of(start), "label": label,
         }));
     }
@@ -802,9 +803,33 @@ impl<'c, 's, 'ast> Visit<'ast> for FnVisitor<'c, 's> {
 
 /// R18 (pre-pass, source to source): `for P in A.chain(B) BODY` -> `for P in A BODY for P in B BODY`
 /// (Verus has no model of iter::Chain).  The duplicate is put on the closing line so line numbers are preserved.
-struct ChainFinder { found: Vec<(usize, usize, usize, usize, usize, usize, usize, usize)> }
+/// R19 (pre-pass): `for P in [e1, .., ek] BODY` (k <= 4, BODY without break/continue of this loop) is unrolled to
+/// `{ let P = e1; BODY } .. { let P = ek; BODY }` (Verus has no model of array::IntoIter).
+struct BrkFinder { depth: usize, found: bool }
+impl<'ast> Visit<'ast> for BrkFinder {
+    fn visit_expr_break(&mut self, b: &'ast syn::ExprBreak) { if self.depth == 0 || b.label.is_some() { self.found = true; } }
+    fn visit_expr_continue(&mut self, c: &'ast syn::ExprContinue) { if self.depth == 0 || c.label.is_some() { self.found = true; } }
+    fn visit_expr_for_loop(&mut self, f: &'ast syn::ExprForLoop) { self.depth += 1; visit::visit_expr_for_loop(self, f); self.depth -= 1; }
+    fn visit_expr_while(&mut self, f: &'ast syn::ExprWhile) { self.depth += 1; visit::visit_expr_while(self, f); self.depth -= 1; }
+    fn visit_expr_loop(&mut self, f: &'ast syn::ExprLoop) { self.depth += 1; visit::visit_expr_loop(self, f); self.depth -= 1; }
+    fn visit_expr_closure(&mut self, _c: &'ast syn::ExprClosure) {}
+}
+struct ChainFinder { found: Vec<(usize, usize, usize, usize, usize, usize, usize, usize)>, arrays: Vec<(usize, usize, usize, Vec<(usize, usize)>, usize, usize)> }
 impl<'ast> Visit<'ast> for ChainFinder {
     fn visit_expr_for_loop(&mut self, f: &'ast syn::ExprForLoop) {
+        if let syn::Expr::Array(arr) = &*f.expr {
+            let mut bf = BrkFinder { depth: 0, found: false };
+            bf.visit_block(&f.body);
+            if !bf.found && f.label.is_none() && arr.elems.len() >= 1 && arr.elems.len() <= 4 {
+                let (fs, _) = br(f.span());
+                let fstart = f.attrs.iter().map(|a| br(a.span()).1).max().unwrap_or(fs).max(fs);
+                let (ps, pe) = br(f.pat.span());
+                let elems: Vec<(usize, usize)> = arr.elems.iter().map(|e| br(e.span())).collect();
+                let (bs, be) = br(f.body.span());
+                self.arrays.push((fstart, ps, pe, elems, bs, be));
+                return; // nested loops inside an unrolled body are not rewritten in the same pass
+            }
+        }
         if let syn::Expr::MethodCall(mc) = &*f.expr {
             if mc.method == "chain" && mc.args.len() == 1 {
                 let (ps, pe) = br(f.pat.span());
@@ -829,14 +854,39 @@ fn strip_comments_one_line(t: &str) -> String {
 }
 fn prepass(src: &str) -> String {
     let file = match syn::parse_file(src) { Ok(f) => f, Err(_) => return src.to_string() };
-    let mut cf = ChainFinder { found: Vec::new() };
+    let mut cf = ChainFinder { found: Vec::new(), arrays: Vec::new() };
     cf.visit_file(&file);
     let mut out = src.to_string();
-    cf.found.sort_by(|a, b| b.7.cmp(&a.7));
-    for (ps, pe, re, me, as_, ae, bs, be) in cf.found {
-        let dup = format!(" for {} in {} {}", &src[ps..pe], &src[as_..ae], strip_comments_one_line(&src[bs..be]));
-        out.insert_str(be, &dup);
-        out.replace_range(re..me, "");
+    // apply from the end of the file backwards so offsets stay valid (the two kinds never nest in one pass)
+    enum Rw { Chain(usize, usize, usize, usize, usize, usize, usize, usize), Arr(usize, usize, usize, Vec<(usize, usize)>, usize, usize) }
+    let mut all: Vec<(usize, Rw)> = Vec::new();
+    for (ps, pe, re, me, as_, ae, bs, be) in cf.found { all.push((be, Rw::Chain(ps, pe, re, me, as_, ae, bs, be))); }
+    for (fs, ps, pe, el, bs, be) in cf.arrays { all.push((be, Rw::Arr(fs, ps, pe, el, bs, be))); }
+    all.sort_by(|a, b| b.0.cmp(&a.0));
+    let mut last_start = usize::MAX;
+    for (_, rw) in all {
+        match rw {
+            Rw::Chain(ps, pe, re, me, as_, ae, bs, be) => {
+                if be > last_start { continue; }
+                let dup = format!(" for {} in {} {}", &src[ps..pe], &src[as_..ae], strip_comments_one_line(&src[bs..be]));
+                out.insert_str(be, &dup);
+                out.replace_range(re..me, "");
+                last_start = ps;
+            }
+            Rw::Arr(fs, ps, pe, el, bs, be) => {
+                if be > last_start { continue; }
+                let mut tailtxt = String::from(" }");
+                for (es, ee) in el.iter().skip(1) {
+                    tailtxt.push_str(&format!(" {{ let {} = {}; {} }}", &src[ps..pe], &src[*es..*ee], strip_comments_one_line(&src[bs..be])));
+                }
+                out.insert_str(be, &tailtxt);
+                // header `for P in [..]` -> `{ let P = e1;` keeping the line structure of the header
+                let nl = src[fs..bs].matches('\n').count();
+                let head = format!("{{ let {} = {}; {}", &src[ps..pe], &src[el[0].0..el[0].1], "\n".repeat(nl));
+                out.replace_range(fs..bs, &head);
+                last_start = fs;
+            }
+        }
     }
     out
 }
